@@ -94,6 +94,12 @@ ClassAccessList(doc, kind) ==
 
 \* ---- document -> transaction ----------------------------------------------
 \* [c, tx]; tx is meaningful unless c = "reject" / "open"
+\* the two usual readings of an object with repeated keys: the first / the last occurrence of a key counts
+KeepFirst(doc) == [doc EXCEPT !.v = SelectSeq([i \in 1..Len(doc.v) |-> <<i, doc.v[i]>>],
+                                               LAMBDA p : \A q \in 1..(p[1] - 1) : doc.v[q][1] # p[2][1])]
+KeepLast(doc)  == [doc EXCEPT !.v = SelectSeq([i \in 1..Len(doc.v) |-> <<i, doc.v[i]>>],
+                                               LAMBDA p : \A q \in (p[1] + 1)..Len(doc.v) : doc.v[q][1] # p[2][1])]
+Unpair(doc) == [doc EXCEPT !.v = [i \in 1..Len(doc.v) |-> doc.v[i][2]]]
 Parse(doc) ==
   IF doc.k # "obj" THEN [c |-> "reject", tx |-> <<>>, why |-> "not_an_object"]
   ELSE IF DupKeys(doc) THEN [c |-> "open", tx |-> <<>>, why |-> ""]
